@@ -65,7 +65,7 @@ void *lltd_port_malloc(size_t size) {
     }
     V_REQUIRE("port.malloc.size-nonzero", size > 0);
     void *p;
-#ifdef V_TXCAP
+#if defined(V_TXCAP) && !defined(V_REPLAY)
     if (size > V_SMALL_MAX) {
         V_REQUIRE("model.txcap: request not smaller than the modelled capacity", size >= V_TXCAP);
         p = malloc(V_TXCAP);
@@ -114,7 +114,7 @@ void *lltd_port_memset(void *ptr, int value, size_t num) {
         __CPROVER_array_set((uint8_t *)ptr, (uint8_t)value);
         return ptr;
     }
-    if (__CPROVER_POINTER_OFFSET(ptr) == 0 && num == __CPROVER_OBJECT_SIZE(ptr)) {
+    if (__CPROVER_POINTER_OFFSET(ptr) == 0 && num == __CPROVER_OBJECT_SIZE(ptr) && num > 1024) {
         __CPROVER_array_set((uint8_t *)ptr, (uint8_t)value);
         return ptr;
     }
